@@ -438,3 +438,70 @@ func contendedWrites(ctx *Ctx, i int, prefix string) {
 	s.Close()
 	ctx.Emit(Case{I: i, Kind: "contended-writes", Desc: map[string]interface{}{"writers": writers, "credits_each": each, "acknowledged": acked, "refused": refused}, Monitor: mon})
 }
+
+// reRegisterRace: a node's keep-alive is being stored while the node registers again as something
+// else (a host that comes back as a light client: no address, no kind, no payout; or the other way
+// round). Both store calls return. A keep-alive changes a node's last check-in and block number
+// and nothing else, so in either order the record afterwards carries the role, kind, address and
+// payout of the registration -- on both drivers, however the persistent one retries its
+// transaction.
+func reRegisterRace(ctx *Ctx, i int, drv int, prefix string) {
+	st := newStore(drv)
+	defer st.Destroy()
+	var mon []string
+	var peers []string
+	now := time.Now()
+	for k := 0; k < 200; k++ {
+		id := fmt.Sprintf("%0128x", 0x5000+k)
+		st.SetNode(store.Node{ID: store.NodeID(id), IsHost: true, Kind: "geth", LastSeen: now, URI: "enode://" + id + "@10.0.0.1:30303"})
+		peers = append(peers, id)
+	}
+	rounds, wrong := 300, 0
+	example := ""
+	for r := 0; r < rounds; r++ {
+		id := store.NodeID(fmt.Sprintf("%0128x", 0x9000+r))
+		first := store.Node{ID: id, IsHost: true, Kind: "geth", URI: "enode://" + string(id) + "@10.9.9.9:30303", LastSeen: time.Now(), Payout: store.Account(walletOf("w1"))}
+		second := store.Node{ID: id, LastSeen: time.Now()}
+		if r%2 == 1 {
+			first, second = second, first
+		}
+		if err := st.SetNode(first); err != nil {
+			fatal("%v", err)
+		}
+		var wg sync.WaitGroup
+		wg.Add(2)
+		start := make(chan struct{})
+		var e1, e2 error
+		go func() { defer wg.Done(); <-start; _, e1 = st.UpdateNodePeers(id, peers, 7) }()
+		go func() {
+			defer wg.Done()
+			<-start
+			time.Sleep(time.Duration(r%40) * 10 * time.Microsecond)
+			second.LastSeen = time.Now()
+			e2 = st.SetNode(second)
+		}()
+		close(start)
+		wg.Wait()
+		n, err := st.GetNode(id)
+		if e1 != nil || e2 != nil || err != nil {
+			continue
+		}
+		if n.IsHost != second.IsHost || n.URI != second.URI || n.Kind != second.Kind || n.Payout != second.Payout {
+			wrong++
+			if example == "" {
+				example = fmt.Sprintf("registered again with host=%v kind=%q address %q payout %q; the record afterwards says host=%v kind=%q address %q payout %q", second.IsHost, second.Kind, shortURI(second.URI), second.Payout, n.IsHost, n.Kind, shortURI(n.URI), n.Payout)
+			}
+		}
+	}
+	if wrong > 0 {
+		mon = append(mon, fmt.Sprintf("%s-keepalive-vs-registration: in %d of %d rounds a node registered again while its keep-alive was being stored (%s driver), both calls returned, and the record is the result of neither order: %s", prefix, wrong, rounds, driverNames[drv], example))
+	}
+	ctx.Emit(Case{I: i, Kind: "re-register-race-" + driverNames[drv], Desc: map[string]interface{}{"rounds": rounds, "wrong": wrong}, Monitor: mon})
+}
+
+func shortURI(u string) string {
+	if len(u) > 30 {
+		return u[:18] + "..." + u[len(u)-20:]
+	}
+	return u
+}
